@@ -34,7 +34,7 @@ from pyvc import plug_c05more as PM
 from pyvc import plug_hdf as H
 from pyvc.contract import Contract, LoopSpec, register, schema
 from pyvc.plug_hdf import sidx
-from pyvc.values import StrS, TBool, TInt, TList, TObj, TStr, ValS, declare_ghost, forall_pat as FA, str_lit
+from pyvc.values import StrS, TBool, TInt, TList, TObj, TOpt, TStr, ValS, declare_ghost, forall_pat as FA, str_lit
 
 from contracts.c05_caches import DATA, P, allocated, cont, cont_t, hashf, heap_preserved, kq, sc
 from contracts.c05_full_cache import (BFC, BUCKETS, IDX, CELLS, FC, G_IN, G_JAC, G_OUT, GD, _Bfc, _HasGroup, _InitializeEntry, _ReadData, _WriteData, content_stable, nestc, preserved, ri,
@@ -240,23 +240,23 @@ def file_is_empty(F: CF):
 
 @register
 class SingClear(_Sing):
-    """``clear``: the node is deleted with all its entries.  h5py raises KeyError when the node does not exist (see HcClear)."""
+    """``clear``: the node is deleted with all its entries; nothing happens (and no exception) when the node does not exist
+    (repaired by 56476e4: the deletion used to be unconditional, h5py raising KeyError for a missing node)."""
 
     targets = (SING + ".clear",)
     params = {"hdf_node_path": TStr}
     modifies = ("self." + FILE_F,)
-    raises = {"KeyError": lambda c: z3.Not(CF(c).node)}
 
     def requires(self, c):
-        return [("type:members-count-the-node", z3.Implies(CF(c).node, CF(c).nmem >= 1))] + file_wf(CF(c))
+        s = z3.Const("s!sc", StrS)
+        F0 = CF(c)
+        # (hash datasets live in entries: true of any file written through write_data; call site: the coupling invariant of HDF5Cache)
+        return [("type:members", F0.nmem >= 0), ("type:members-count-the-node", z3.Implies(F0.node, F0.nmem >= 1)),
+                ("hashes-belong-to-entries", FA([s], z3.Implies(F0.hashes.has(s), F0.ents.member[s]), F0.hashes.has(s)))] + file_wf(F0)
 
     def ensures(self, c):
         F0, F1 = CF(c), CF(c, "new")
-        return [("node-deleted", file_is_empty(F1)), ("type:members", z3.And(F1.nmem >= 0, F1.nmem == F0.nmem - 1))] + file_wf(F1)
-
-    def raise_ensures(self, c, exc):
-        F0, F1 = CF(c), CF(c, "new")
-        return [("file-untouched", z3.And(F1.node == F0.node, F1.nmem == F0.nmem))]
+        return [("node-deleted", file_is_empty(F1)), ("type:members", z3.And(F1.nmem >= 0, F1.nmem == z3.If(F0.node, F0.nmem - 1, F0.nmem)))] + file_wf(F1)
 
 
 # =============================================================================== read_hashes: the hash table of a reopened file
@@ -423,8 +423,8 @@ def _model_clear(ex):
 @register
 class HcClear(_Bfc):
     """``HDF5Cache.clear``: no entry is left, neither in the hash table nor in the file; the representation and coupling invariants
-    hold afterwards.  No exception is allowed - FAILS when the node does not exist in the file (nothing was ever written, or the cache
-    was already cleared): ``del file[node]`` raises KeyError (known finding, region ``node-absent``)."""
+    hold afterwards.  No exception is allowed - also when the node does not exist in the file (nothing was ever written, or the cache
+    was already cleared): the KeyError of ``del file[node]`` was repaired by 56476e4."""
 
     targets = (HC + ".clear",)
     self_schema = HC + "#c05"
@@ -433,9 +433,6 @@ class HcClear(_Bfc):
 
     def axioms(self, c):
         return hdf_axioms()
-
-    def finding_regions(self, c):
-        return {"node-absent": z3.Not(HF(c).node)}
 
     def requires(self, c):
         v0, F0 = self.v(c), HF(c)
@@ -528,8 +525,8 @@ def _hc_entries_inv(c, k):
 @register
 class HcGetAllEntries(BfcGetAllEntries):
     """The override of HDF5Cache (same loop inside ``keep_open``): same specification, the file and the model store stay coupled, the
-    file handle is closed again.  No exception is allowed - FAILS for an EMPTY cache: ``keep_open`` closes a handle that no file
-    operation opened (``__close``: ``assert self.__file is not None``) -> AssertionError (known finding, region ``empty-cache``)."""
+    file handle is closed again.  No exception is allowed - also for an EMPTY cache, where no file operation opens the handle
+    (``keep_open`` used to close it unconditionally -> AssertionError of ``__close``; repaired by 5ec8a9c, see KeepOpen below)."""
 
     targets = (HC + ".get_all_entries",)
     self_schema = HC + "#c05"
@@ -540,15 +537,51 @@ class HcGetAllEntries(BfcGetAllEntries):
     def axioms(self, c):
         return hdf_axioms()
 
-    def finding_regions(self, c):
-        return {"empty-cache": self.v(c).M == 0}
-
     def requires(self, c):
         closed = z3.And(z3.Not(c.old_ghost("hc_keep", BOOL)), z3.Not(c.old_ghost("hc_open", BOOL)))
         return super().requires(c) + coupled(self.v(c), HF(c)) + [("file-handle-closed", closed)]
 
     def ensures(self, c):
         return super().ensures(c) + [("file-handle-closed", z3.And(z3.Not(c.new_ghost("hc_keep", BOOL)), z3.Not(c.new_ghost("hc_open", BOOL))))]
+
+
+# ---- the handle protocol of keep_open, on the real source
+schema(SING + "#handle", {"_HDF5FileSingleton__keep_open": TBool, "_HDF5FileSingleton__file": TOpt(TInt)})  # (the handle: an opaque id or None)
+
+
+@register
+class CloseHandle(Contract):
+    targets = (SING + ".__close",)
+    prop = ("C05",)
+    self_schema = SING + "#handle"
+    modifies = ("self",)
+    trusted = True
+    description = ("assumed (h5py File.close): `__close` closes the handle and forgets it; its `assert self.__file is not None` is the "
+                   "PRECONDITION every call site has to establish (an AssertionError otherwise)")
+
+    def requires(self, c):
+        return [("the-handle-is-open (assert self.__file is not None)", z3.Not(c.old.self._HDF5FileSingleton__file.is_none()))]
+
+    def ensures(self, c):
+        return [("handle-forgotten", c.new.self._HDF5FileSingleton__file.is_none()), ("flag-kept", c.new.self._HDF5FileSingleton__keep_open == c.old.self._HDF5FileSingleton__keep_open)]
+
+
+@register
+class KeepOpen(Contract):
+    """``keep_open`` (a generator-based context manager: the code before the yield is the entry, the code after it the exit), for an
+    ARBITRARY state of the handle when the body is left - open (some file operation ran inside) or not (none did, e.g. the loop of
+    get_all_entries over an empty cache): no exception, the flag is reset and no handle is left open."""
+
+    targets = (SING + ".keep_open",)
+    prop = ("C05",)
+    self_schema = SING + "#handle"
+    returns = TList(TOpt(TInt))
+    modifies = ("self",)
+    inline_ok = True  # callers (HDF5Cache.get_all_entries) see keep_open through the context-manager summary of pyvc/plug_c05more.py, which states this contract
+
+    def ensures(self, c):
+        return [("flag-reset", z3.Not(c.new.self._HDF5FileSingleton__keep_open)), ("no-handle-left-open", c.new.self._HDF5FileSingleton__file.is_none()),
+                ("yields-once", c.result.n == 1)]
 
 
 @register
